@@ -37,6 +37,9 @@ inductive BindErr where
 inductive RowVal where
   | seq (vs : List RVal)
   | byName (m : List (String × RVal))
+  /-- a `#[derive(SerializeRow)]` struct of the default (by-name) flavor without attributes: its fields in
+  DECLARATION order -/
+  | derived (fields : List (String × RVal))
   deriving Repr, Inhabited
 
 /-- `serialize_column(v, col, writer)?` for each pair, in order. -/
@@ -69,6 +72,45 @@ def minName : List String → Option String
     | none => some a
     | some b => if a < b then some a else some b
 
+/-! #### derived by-name structs: `ByName::serialize` (scylla-cql-core/src/_macro_internal.rs:198-231) over the
+generated partial struct (scylla-macros/src/serialize/row.rs:262-376, no flattened field): one `visited` flag per field
+and `remaining_count`, initially the number of fields. -/
+
+structure Partial where
+  visited : List Bool
+  remaining : Nat
+  deriving Repr, Inhabited
+
+/-- the `match spec.name()` of the generated `serialize_field`: the arm of the FIRST field of that name. -/
+def fieldIdx (n : String) : List (String × RVal) → Nat → Option (Nat × RVal)
+  | [], _ => none
+  | (k, v) :: r, i => if k = n then some (i, v) else fieldIdx n r (i + 1)
+
+/-- `if !self.visited_i { self.visited_i = true; self.remaining_count -= 1; }` -/
+def Partial.visit (p : Partial) (i : Nat) : Partial :=
+  if p.visited.getD i false then p else ⟨p.visited.set i true, p.remaining - 1⟩
+
+/-- The loop of `ByName::serialize`: every bind marker in order; `NotUsed` (no arm) = `ValueMissingForColumn`. -/
+def derivedLoop (fs : List (String × RVal)) : List Col → Partial → RW → RW × Partial × Option BindErr
+  | [], p, w => (w, p, none)
+  | c :: rest, p, w =>
+    match fieldIdx c.name fs 0 with
+    | none => (w, p, some (.valueMissingForColumn c.name))
+    | some (i, v) =>
+      match w.makeCell (ser c.ty v true) with
+      | (w', some e) => (w', p, some (.column c.name e))
+      | (w', none) => derivedLoop fs rest (p.visit i) w'
+
+/-- the `#(if !self.visited_i { return Err(NoColumnWithName{field_i}) })*` chain: DECLARATION order. -/
+def firstUnvisited : List (String × RVal) → List Bool → Option String
+  | (k, _) :: fs, b :: bs => if b then firstUnvisited fs bs else some k
+  | _, _ => none
+
+/-- the generated `check_missing`: the shortcut on `remaining_count == 0` first. -/
+def checkMissing (fs : List (String × RVal)) (p : Partial) : Option BindErr :=
+  if p.remaining == 0 then none
+  else (firstUnvisited fs p.visited).map BindErr.noColumnWithName
+
 /-- `<R as SerializeRow>::serialize(ctx, writer)`. -/
 def serializeRow (rv : RowVal) (cols : List Col) (w : RW) : RW × Option BindErr :=
   match rv with
@@ -82,6 +124,10 @@ def serializeRow (rv : RowVal) (cols : List Col) (w : RW) : RW × Option BindErr
       match minName ((m.map (·.1)).filter (fun k => !(cols.any (fun c => c.name == k)))) with
       | some k => (w', some (.noColumnWithName k))
       | none => (w', none)
+  | .derived fs =>
+    match derivedLoop fs cols ⟨List.replicate fs.length false, fs.length⟩ w with
+    | (w', _, some e) => (w', some e)
+    | (w', p, none) => (w', checkMissing fs p)
 
 /-- `SerializedValues::from_serializable(ctx, row)`. -/
 def fromSerializable (rv : RowVal) (cols : List Col) : Except BindErr SV :=
